@@ -340,6 +340,12 @@ pub fn cases(tier: Tier, seed: u64) -> Vec<Case> {
             out.push(conv_case(c, Act::Linear, i % 2 == 1));
         }
     }
+    // more output rows / columns than the library's internal chunk size (64), not a multiple of it
+    for (ih, iw, k) in [(66usize, 1usize, (2usize, 1usize)), (1, 67, (1, 2)), (70, 2, (2, 2))] {
+        if full || ih == 66 {
+            out.push(conv_case(Cfg { ic: 1, ih, iw, f: 1, k, s: (1, 1), p: (0, 0), d: (1, 1) }, Act::Linear, ih == 70));
+        }
+    }
     // deconvolution (dilation fixed to 1)
     let dsize = |c: &Cfg| match c.deconv_out() {
         Some((oh, ow)) => c.f * oh * ow * c.ic * c.k.0 * c.k.1,
